@@ -68,6 +68,47 @@ func c07Value(spec M) interface{} {
 	return struct{ Unknown string }{str(spec["ty"])}
 }
 
+func c07ParseAliased(text string, params map[string]interface{}) M {
+	o := M{}
+	var q *influxql.Query
+	var err error
+	p := guard(func() {
+		m2 := make(map[string]interface{}, len(params))
+		for k, v := range params {
+			m2[k] = v
+		}
+		ps := influxql.NewParser(strings.NewReader(text))
+		ps.SetParams(m2)
+		i := 0
+		for k := range m2 {
+			if i%2 == 0 {
+				m2[k] = "CLOBBERED"
+			} else {
+				delete(m2, k)
+			}
+			i++
+		}
+		m2["zz_new"] = int64(7)
+		q, err = ps.ParseQuery()
+	})
+	switch {
+	case p != "":
+		o["panic"] = p
+	case err != nil:
+		o["err"] = c06Clean(errStr(err))
+	case q == nil:
+		o["err"] = "(no result and no error)"
+	default:
+		var t interface{}
+		if pp := guard(func() { t = c06Tag(project(q)) }); pp != "" {
+			o["panic"] = "project: " + pp
+		} else {
+			o["ast"] = t
+		}
+	}
+	return o
+}
+
 // c07Rebind: see the call site.  Records the outcome of both statements: {first: ok|err, second: ok|err|panic}.
 func c07Rebind(text string, params map[string]interface{}, useNil bool) M {
 	r := M{}
@@ -120,6 +161,11 @@ func init() {
 		// parsed: no binding is left, so a template with a placeholder must now fail.
 		if !noset && len(list(c["holes"])) > 0 && !strings.Contains(text, ";") { // one statement: the second copy holds the placeholder
 			o["rebind"] = c07Rebind(text, params, num(c["id"])%2 == 0)
+		}
+		// the caller's map is the caller's: it is changed right after SetParams (a reused request map); the parse must
+		// see the values that were bound
+		if !noset && len(params) > 0 {
+			o["alias"] = c07ParseAliased(text, params)
 		}
 		for _, k := range []string{"mark", "inl"} {
 			if t := list(c[k]); t != nil {
